@@ -67,9 +67,13 @@ def keeps(w, first, second):
 def run_one(a, b, keep, simplify, order, sub, out, extra_base):
     from pacti.utils.errors import IncompatibleArgsError
 
+    before = (jcontract(a), jcontract(b))
     try:
         res, stats = a.compose_tactics(b, list(keep), simplify, None if order is None else list(order))
     except IncompatibleArgsError:
+        if (jcontract(a), jcontract(b)) != before:
+            out.append(("modified-operand", False, None, {"sub": sub, "what": "compose modified an operand contract in place (while refusing)"}, extra_base))
+            return None
         out.append(("IncompatibleArgsError", False, None, None, extra_base))
         return None
     except ValueError:
@@ -82,6 +86,9 @@ def run_one(a, b, keep, simplify, order, sub, out, extra_base):
     used = sorted({t[0] for st in stats for t in st if t[0] > 0})
     invoked = any(st for st in stats)
     viol = None
+    if (jcontract(a), jcontract(b)) != before:
+        out.append(("modified-operand", False, None, {"sub": sub, "what": "compose modified an operand contract in place"}, extra_base))
+        return invoked
     w = CS.compose_unsound(a, b, res)
     if w is not None:
         viol = {"sub": sub, "what": "composition is not a sound abstraction", "result": jcontract(res), "tactics": used, "witness": O.ptjson(w)}
